@@ -150,12 +150,12 @@ REGISTRY = {
     "C02": {
         "corr": "C02",
         "trusted": [
-            "modelled: Batcher (Fixed / Single; Adaptive = Fixed plus clock-driven flushes), End::next over several downstream blocks, the wire format of remote_send / remote_recv (20-byte header + opaque body)",
+            "modelled: Batcher in all three modes — Fixed, Single and Adaptive(n, max_delay) with the clock as a universally quantified input (last_send per batcher, strict comparison, an empty flush leaves last_send alone) —, End::next over several downstream blocks, the wire format of remote_send / remote_recv (20-byte header + opaque body)",
             "assumed, not verified: flume channels and TCP connections are reliable FIFO streams; bincode deserialize(serialize m) = m and serialized_size exact (bodies are opaque bytes in the model; the correspondence checks that the real decoder returns what was sent)",
             "multiplexer / demultiplexer threads only call remote_send / remote_recv in a loop and look the endpoint up in a map; exercised by the multi-host pipeline runs of C01",
         ],
-        "assumptions": ["payload sizes below 2^32 bytes"],
-        "level_text": "Proof: per receiving replica, the sequence received over a link is exactly the sequence the producer's End addressed to it, in order, for every strategy, batch mode and number of downstream blocks (batcher sequence + End invariant), and the wire format round-trips frames of several replicas on one connection. Tied to the code by driving the real End with hand-made receivers (batch boundaries compared exactly) and the real remote_send / remote_recv over byte buffers (header bytes compared with the model encoder). Partial: channel/TCP reliability and bincode are assumed.",
+        "assumptions": ["payload sizes below 2^32 bytes", "the correspondence drives the adaptive batcher under a mock clock (hook 87c48ac) with readings in multiples of 10 ms and delays of 5/15/45 ms: a reading exactly max_delay after last_send is avoided because coarsetime rounds each operand to 2^-32 s ticks there"],
+        "level_text": "Proof: per receiving replica, the sequence received over a link is exactly the sequence the producer's End addressed to it, in order, for every strategy, every batch mode (fixed, single, adaptive with ANY clock: the clock only decides where batches are cut, never content or order; every adaptive batch has 1..n elements) and number of downstream blocks (batcher sequence + End invariant), and the wire format round-trips frames of several replicas on one connection. Tied to the code by driving the real End with hand-made receivers (batch boundaries compared exactly) and the real remote_send / remote_recv over byte buffers (header bytes compared with the model encoder). Partial: channel/TCP reliability and bincode are assumed.",
         "level_note": "Trusted: Coq kernel/vm_compute, hand-written model (checked by correspondence), harness; flume/TCP FIFO reliability and bincode round-trip assumed. No axioms.",
         "explanation": "C02_* proved; End and framing driven directly.",
     },
@@ -236,12 +236,12 @@ REGISTRY = {
         "classes": {1: "F9", 2: "F11", 3: "F12"},
         "harness_timeout": 3000,
         "trusted": [
-            "modelled: End + Batcher flush points (FlushAndRestart, FlushBatch, Terminate), the receive part of Start::next with adaptive batching (already_timed_out), ChannelSource::next (MAX_RETRY polls, one FlushBatch, blocking recv), linear pipelines of k block boundaries",
+            "modelled: End + Batcher in all modes incl. Adaptive with the clock as input (flush points: size, elapsed delay at the next enqueue, FlushAndRestart, FlushBatch, Terminate), the receive part of Start::next with adaptive batching (already_timed_out), ChannelSource::next (MAX_RETRY polls, one FlushBatch, blocking recv), linear pipelines of k block boundaries",
             "observed, not proved: the real-time bound (k x max_delay + processing): the timing part of the check only flags data that is withheld (bound 20 x delay x (depth+1) + 2 s)",
             "noted while modelling: an Adaptive Batcher checks its elapsed time only on its own enqueue, so under CONTINUING input to other replicas a lone element can wait for its batch to fill; outside the property's no-further-input clause",
         ],
         "assumptions": ["adaptive batching for the delay statements; input stops but the sender stays open"],
-        "level_text": "Proof: every buffered element is delivered at the latest at the end of its iteration or when idleness is signalled, for every batch mode, strategy and number of downstream blocks; with adaptive batching neither a block input nor the channel source blocks indefinitely before having emitted FlushBatch since the last arrival; in a k-boundary pipeline quiescence implies everything was delivered in order with at most one timed wait per boundary. Tied to the code by whole jobs under all six batch modes (results equal the sequential meaning), by the real End driven with FlushBatch / round ends, and by a timing probe on a real channel-source pipeline. Partial: the wall-clock bound is observed.",
+        "level_text": "Proof: every buffered element is delivered at the latest at the end of its iteration or when idleness is signalled, for every batch mode, strategy and number of downstream blocks; what was received plus what is buffered is always exactly what was addressed (nothing is dropped); with adaptive batching an element enqueued after the delay has elapsed since the batcher's last send leaves the buffer empty (C18_adaptive_late_flush, any clock); neither a block input nor the channel source blocks indefinitely before having emitted FlushBatch since the last arrival; in a k-boundary pipeline quiescence implies everything was delivered in order with at most one timed wait per boundary. Tied to the code by whole jobs under all six batch modes (results equal the sequential meaning), by the real End driven with FlushBatch / round ends in all modes (adaptive under a mock clock, batch boundaries compared exactly), and by a timing probe on a real channel-source pipeline. Partial: the wall-clock bound is observed.",
         "level_note": "Trusted: Coq kernel/vm_compute, hand-written models (End checked by correspondence; idle machines read off the code), harness, OS timers. No axioms.",
         "explanation": "C18_* proved; batch-mode independence and flushes checked on the engine.",
     },
@@ -263,13 +263,13 @@ REGISTRY = {
         "harness_timeout": 3000,
         "trusted": [
             "modelled: a job as a network of replicas over bounded FIFO channels (Model/Net.v: blocking send on a full channel, blocking receive on empty wanted channels); the marker-level replica r_sem (counts FlushAndRestart / Terminate per side, broadcasts them in End's order, forwards data batches, reads only the side that has not ended the round); the detailed marker accounting of Start (Model/Start.v) and of the two-input Start's select (Model/BinaryStart.v)",
-            "the marker-level replica is an abstraction of Start + operator chain + End that is read off the code and justified by the operator-level theorems (C04_start_*, C04_binary_*, C02/C05); it is tied to the engine end to end by whole-job runs only",
-            "covered by the unconditional theorems: every acyclic job on ONE host (channels per (consumer replica, previous block), any fan-in/fan-out, self-joins, any capacity >= 1, any data). NOT covered: loops (feedback edges; Model/Loop.v and C10, whole-job runs) and multi-host runs, where remote connections are multiplexed per (block pair, host pair): the model then has a reachable deadlock (C04_mux_deadlock_in_model; >= 2 hosts, > 16 upstream replicas, a full connection behind a blocked Terminate) that we did not reproduce on the engine; see DESIGN.md F13",
+            "the marker-level replica is an abstraction of Start + operator chain + End that is read off the code and justified by the operator-level theorems (C04_start_*, C04_binary_*, C02/C05); it is tied to the engine end to end by whole-job runs; the static premise dag_ok of the theorems is checked (dag_okb, inside Coq) on the execution graphs the real scheduler derives for the generated acyclic jobs",
+            "covered by the unconditional theorems: every acyclic job on ONE host (channels per (consumer replica, previous block), any fan-in/fan-out, self-joins, any capacity >= 1, any data). NOT covered: loops (feedback edges; Model/Loop.v and C10, whole-job runs) and multi-host runs, where remote connections are multiplexed per (block pair, host pair): the model then has reachable deadlocks (C04_mux_deadlock_in_model, C04_mux_join_deadlock_in_model); the second shape was reproduced on the engine and is known finding F13 (harness/src/props/muxjoin.rs)",
             "trusted: thread scheduling fairness, flume channels, TCP, JoinHandle::join",
         ],
         "assumptions": ["finite sources; user functions terminate; static well-formedness dag_ok of the execution graph (decidable; it excludes exactly the start-up panic of known finding F11: a consumer replica without producer)"],
         "level_text": "Proof: for every acyclic network of marker-level replicas without demultiplexers (every non-iterative one-host job), every capacity, data volume and schedule, no reachable state is a deadlock, every execution is finite and ends with all replicas exited (C04_dag_no_deadlock, C04_dag_job_terminates: global counting invariant over channels + the generic level argument C04_no_deadlock); block inputs are proved to keep reading until every producer's Terminate arrived, to emit Terminate exactly once and last, and to block only on empty sides that still owe a marker. Completeness of each sink is C01's theorem. Tied to the code by whole jobs on the real engine (loops, side inputs, diamonds, empty inputs, inputs larger than the total channel capacity, all batch modes, local and multi-host) under a watchdog, results compared with the sequential meaning. Partial: loops and multiplexed multi-host connections are outside the network theorem.",
-        "level_note": "Trusted: Coq kernel/vm_compute, network model (tied to the engine by whole-job runs only), harness watchdogs. Known findings F9 (iterate hang), F11, F12. No axioms.",
+        "level_note": "Trusted: Coq kernel/vm_compute, network model (tied to the engine by whole-job runs only), harness watchdogs. Known findings F9 (iterate hang), F11, F12, F13 (multi-host join deadlock). No axioms.",
         "explanation": "C04_* proved on the network model (all acyclic one-host jobs); whole jobs run on the engine under a watchdog.",
     },
 }
